@@ -185,6 +185,14 @@ def injector_cases():
     for good in ('2024-02-29', '2020-12-31'):
         for tmpl in ('SELECT ({})', 'SELECT dt IN ({},) FROM #t', 'SELECT year(({})) FROM #t', 'SELECT dt < ({}) FROM #t'):
             add('invalid-calendar-date', tmpl.format(good), A)
+    # constant expressions that cannot be evaluated: refused at compile time, whatever the Python exception underneath
+    # (re.error, OverflowError, IndexError, ValueError, decimal signals, ZeroDivisionError of a float modulo)
+    for expr in ('"abc" ~ "("', '"abc" !~ "(?P<n"', 'grep("(", "abc")', 'grepn("(", "abc", 0)', 'subst("(", "x", "abc")', 'str(1) ~ "["', 'upper("a") ~ "*"',
+                 '9999-12-31 + 1', 'date_add(9999-12-31, 1)', '2020-01-01 - 100000000', 'splitcomp("a:b", ":", 5)', 'maxwidth("abc", -1)', 'maxwidth("abc", 2)',
+                 'parse_date("x", "%Y")', 'decimal("1E+999999") * decimal("1E+999999")', 'round(1.5, 100000)', 'date_bin("0 days", 2020-01-01, 2020-01-01)'):
+        for tmpl in ('SELECT {} FROM #t', 'SELECT i FROM #t WHERE {} = s', 'SELECT count(*) FROM #t GROUP BY {}', 'SELECT i FROM #t ORDER BY {}',
+                     'SELECT i, count(*) FROM #t GROUP BY i HAVING count(*) > 0 AND str({}) = "x"', 'SELECT i IN (SELECT j FROM #t WHERE str({}) = s) FROM #t'):
+            add('constant-cannot-be-evaluated', tmpl.format(expr), R)
     # coalesce
     add('coalesce', 'SELECT coalesce(i, j) FROM #t', A)
     add('coalesce', 'SELECT coalesce(i, 1) FROM #t', A)
